@@ -57,3 +57,119 @@ def post_helper_parses_as_one_sequence(r):
     if len(lst) != 1:
         return False
     return lst[0].terminator == r.final and lst[0].sequence == r.params
+
+
+# ------------------------------------------------------------------------------------------ S2D
+def tuple5(codes):
+    out = [-1, -1, -1, -1, -1]
+    i = 0
+    for c in codes:
+        if i < 5:
+            out[i] = c
+        i += 1
+    return (out[0], out[1], out[2], out[3], out[4])
+
+
+def dict_state(d):
+    """terminal state described by an effect dictionary (effect group -> the setting that set it)"""
+    st = term_default()
+    for eff in d:
+        val = tuple5(codes_of_text(str(d[eff])))
+        if sgr_kind(val[0]) == K_CLEAR:
+            val = TERM_OFF   # e.g. "10" (primary font) stored as a font setting displays like no font setting
+        st = state_set(st, eff.value - 1, val)
+    return st
+
+
+def post_s2d_is_fold(r):
+    """the result is the prior state with the settings' codes applied in order: an apply code replaces the entry of its
+    effect group, a clear code deletes it, reset empties the state, unknown codes change nothing"""
+    exp = dict_state(r.old_old_settings_dict)
+    for s in r.old_settings:
+        exp = term_apply(exp, codes_of_text(str(s)))
+    return dict_state(r.result) == exp
+
+
+def post_s2d_result_is_new(r):
+    return r.result is not r.old_settings_dict
+
+
+def post_s2d_entries_are_given_settings(r):
+    """every entry is one of the prior entries or one of the given setting objects"""
+    for eff in r.result:
+        v = r.result[eff]
+        found = False
+        for s in r.settings:
+            if s is v:
+                found = True
+        for e2 in r.old_settings_dict:
+            if r.old_settings_dict[e2] is v:
+                found = True
+        if not found:
+            return False
+    return True
+
+
+# ------------------------------------------------------------------------------------------ J1
+def seq_codes(r):
+    """the integer tokens of the input sequence (a non-numeric token is dropped, an empty one is 0)"""
+    seq = r.old_sequence
+    if isinstance(seq, str):
+        return codes_of_text(seq)
+    out = []
+    for x in seq:
+        if isinstance(x, int):
+            out.append(x)
+        else:
+            p = x.strip()
+            if p == '':
+                out.append(0)
+            else:
+                try:
+                    out.append(int(p))
+                except ValueError:
+                    pass
+    return out
+
+
+def post_parse_terminal_agreement(r):
+    """add_erroneous=False: reducing the returned settings in order gives the state a terminal reaches on the code list"""
+    if r.add_erroneous:
+        return True
+    return eff_state(r.result) == term_apply(term_default(), seq_codes(r))
+
+
+def post_parse_all_tokens_kept(r):
+    """add_erroneous=True: every integer token of the input appears, in order, in the returned settings"""
+    if not r.add_erroneous:
+        return True
+    got = []
+    for s in r.result:
+        for c in codes_of_text(str(s)):
+            got.append(c)
+    exp = seq_codes(r)
+    if len(exp) == 0:
+        return got == [0]
+    return got == exp
+
+
+def post_parse_empty_is_reset(r):
+    if len(seq_codes(r)) == 0 and (isinstance(r.old_sequence, str) and r.old_sequence == '' or len(r.old_sequence) == 0):
+        return len(r.result) == 1 and str(r.result[0]) == '0'
+    return True
+
+
+def post_parse_groups_are_complete(r):
+    """add_erroneous=False: an extended-colour introducer is returned only as part of a complete group, and every
+    returned setting is a single code or one complete group (nothing is glued together or split)"""
+    if r.add_erroneous:
+        return True
+    for s in r.result:
+        cs = codes_of_text(str(s))
+        h = cs[0]
+        if h == 38 or h == 48 or h == 58:
+            if not ((len(cs) == 3 and cs[1] == 5) or (len(cs) == 5 and cs[1] == 2)):
+                return False
+        elif len(cs) != 1:
+            return False
+    return True
